@@ -91,6 +91,37 @@ func c17Rebuild(tm *term) string {
 	return ""
 }
 
+// c17SharedPrefix: And/Or built over ONE child slice and over each proper prefix of it (what a
+// caller gets who grows a list with append and builds the filter again: the variadic constructors
+// keep the slice they are given).  Same backing array, different filters.
+func c17SharedPrefix(tm *term) string {
+	if (tm.Kind != tAnd && tm.Kind != tOr) || len(tm.Children) == 0 {
+		return ""
+	}
+	cs := make([]filter.Filter, len(tm.Children))
+	for i, c := range tm.Children {
+		cs[i] = c.build()
+	}
+	mk := filter.And
+	if tm.Kind == tOr {
+		mk = filter.Or
+	}
+	full := mk(cs...)
+	bfull := acceptBits(full, c17Universe)
+	for k := 0; k < len(cs); k++ {
+		pt := &term{Kind: tm.Kind, Children: tm.Children[:k]}
+		pf := mk(cs[:k]...)
+		bp := acceptBits(pf, c17Universe)
+		if _, _, msg := c17CheckPair(tm, pt, full, pf, bfull, bp); msg != "" {
+			return "child lists sharing one backing array: " + msg
+		}
+		if _, _, msg := c17CheckPair(pt, tm, pf, full, bp, bfull); msg != "" {
+			return "child lists sharing one backing array: " + msg
+		}
+	}
+	return ""
+}
+
 func TestC17_Random(t *testing.T) { rapid.Check(t, c17RandomProp) }
 
 // FuzzC17: the same property under Go's coverage-guided fuzzer (thorough tier).
@@ -114,6 +145,9 @@ func c17RandomProp(t *rapid.T) {
 			t.Fatalf("C17 violation: %s", msg)
 		}
 		if msg := c17Rebuild(ta); msg != "" {
+			t.Fatalf("C17 violation: %s", msg)
+		}
+		if msg := c17SharedPrefix(ta); msg != "" {
 			t.Fatalf("C17 violation: %s", msg)
 		}
 		labels := []string{fmt.Sprintf("depth%d", ta.depth())}
@@ -242,6 +276,10 @@ func TestC17_Enum(t *testing.T) {
 		filters2[i] = tm.build()
 		bits[i] = acceptBits(filters[i], c17Universe)
 		if msg := c17Rebuild(tm); msg != "" {
+			writeEnumReplay(t, "C17", "TestC17_Enum", tm.String(), msg)
+			t.Fatalf("C17 violation: %s", msg)
+		}
+		if msg := c17SharedPrefix(tm); msg != "" {
 			writeEnumReplay(t, "C17", "TestC17_Enum", tm.String(), msg)
 			t.Fatalf("C17 violation: %s", msg)
 		}
